@@ -263,6 +263,9 @@ def generate_simple_plan(
     if stop_revid is not None and stop_revid not in todo_set:
         raise AssertionError(f"invalid stop_revid {stop_revid}")
     replace_map = {}
+    # Revisions left out of the plan because of skip_full_merged, mapped to
+    # the revision that takes their place as a parent of later revisions.
+    skipped = {}
     parent_map = graph.get_parent_map(todo_set)
     order = topo_sort(parent_map)
     if stop_revid is None:
@@ -287,6 +290,8 @@ def generate_simple_plan(
             parents.append(onto_revid)
         elif oldparents[0] in replace_map:
             parents.append(replace_map[oldparents[0]][0])
+        elif oldparents[0] in skipped:
+            parents.append(skipped[oldparents[0]])
         else:
             parents.append(onto_revid)
             parents.append(oldparents[0])
@@ -297,15 +302,21 @@ def generate_simple_plan(
                 if oldparent in additional_parents:
                     if heads_cache.heads((oldparent, onto_revid)) == {onto_revid}:
                         pass
-                    elif oldparent in replace_map:
-                        newparent = replace_map[oldparent][0]
-                        if parents[0] == onto_revid:
+                    elif oldparent in replace_map or oldparent in skipped:
+                        if oldparent in replace_map:
+                            newparent = replace_map[oldparent][0]
+                        else:
+                            newparent = skipped[oldparent]
+                        if newparent == onto_revid or newparent in parents:
+                            pass
+                        elif parents[0] == onto_revid:
                             parents[0] = newparent
                         else:
                             parents.append(newparent)
                     else:
                         parents.append(oldparent)
             if len(parents) == 1 and skip_full_merged:
+                skipped[oldrevid] = parents[0]
                 continue
         parents = tuple(parents)
         newrevid = generate_revid(oldrevid, parents)
